@@ -184,6 +184,16 @@ def build_plans(world):
             e["tag"] = "q%d" % n
             ops.append(e)
         ops += snapshot("s%d" % n)
+    # what a query returns must not depend on the queries made before it: the same queries once more, in
+    # reverse order, must give the answers of the first pass
+    for n in reversed(range(len(world["queries"]))):
+        for e in q_exec(world["queries"][n]):
+            e = dict(e)
+            for f in ("k", "usr", "etc"):
+                if e.get(f) == 0:
+                    e[f] = obj
+            e["tag"] = "r%d" % n
+            ops.append(e)
     if hist_member is not None:
         ops.append({"op": "historyMember", "h": 0, "release": 4})
         ops.append({"op": "freeHistory", "h": 0})
@@ -228,6 +238,13 @@ def check(world, plans, results):
         if wv != w0:
             v.fail("mutated:written", "after query %d %r econf_writeFile produces different bytes" % (n, q))
             break
+    if not v.violations:
+        for n, q in enumerate(world["queries"]):
+            a1 = canon(strip_volatile(bytag.get("q%d" % n, [])))
+            a2 = canon(strip_volatile(bytag.get("r%d" % n, [])))
+            if a1 != a2:
+                v.fail("answer:history", "query %d %r answered %s in the first pass and %s when repeated after the other queries" % (n, q, a1[:150], a2[:150]))
+                break
     nkeys = len(world["pairs"])
     v.nontrivial = nkeys >= 3 and len(set(k.split(":")[0] for k in kinds)) >= 4 and failing
     v.sig = sig_of(world["src"], grammar.dclass(world["D"]), sorted(kinds), min(nkeys // 3, 5))
